@@ -35,14 +35,14 @@ def _box_size(vals):
 
 def compare(op, impl, model):
     """Derived tolerances (eps = 2^-24, the unit round-off of the implementation's `float`):
-    * exact (integer data, every intermediate < 2^24): conv1 conv1ip csym csymip conv2 conv3 sep sepnull sci; p2a (copies/conjugates)
+    * exact (integer data, every intermediate < 2^24): conv1 conv1ip csym csymip conv2 conv3 sep sepnull sci scic; p2a (copies/conjugates)
     * fft / rfft : |impl - model| <= 16 (log2 N + 2) eps sqrt(N) ||x||_2  per component (FFT forward error bound, N = number of points)
     * ifft / irfft: |impl - model| <= 16 (log2 N + 2) eps ||input||_2 / sqrt(N) ... stated on the input of the inverse
     * the same bounds against the DFT evaluated by its definition at the sampled frequencies
     * dftf: |impl - exact circular convolution| <= 32 (log2 L + 2) eps ||k||_1 ||x||_2  (three transforms + product)
     * gauss: relative 16 eps (+1e-30): kernel coefficients are float-rounded values of double expressions; libm differences
-    * metz: |impl - model| <= 3e-4 max|kernel| : the implementation runs two float FFTs of 2^14..2^15 points (measured agreement 1e-7..1e-4 of the peak;
-      a coefficient at the 1e-4 truncation threshold may be kept by one side and dropped by the other)"""
+    * metz: |impl - model| <= 5e-4 max|kernel| : the implementation runs two float FFTs of 2^14..2^15 points (measured noise up to 4e-5 of the peak)
+      and drops trailing coefficients below 1e-4 of the peak, so a coefficient of up to ~1.5e-4 may be kept by one side and dropped by the other"""
     kind = op.split(" ", 1)[0]
     if impl == model:
         return True
@@ -50,7 +50,7 @@ def compare(op, impl, model):
         return False
     try:
         t = op.split()
-        if kind in ("conv1", "conv1ip", "csym", "csymip", "conv2", "conv3", "sep", "sepnull", "sci"):
+        if kind in ("conv1", "conv1ip", "csym", "csymip", "conv2", "conv3", "sep", "sepnull", "sci", "scic"):
             return [_num(x) for x in impl.split()] == [float(int(x)) for x in model.split()]
         if kind == "p2a":
             return [_num(x) for x in impl.split()] == [_bits(x) for x in model.split()]
@@ -95,7 +95,7 @@ def compare(op, impl, model):
         if kind == "metz":
             for il, ml in zip(impl.split("|"), model.split("|")):
                 ia, ma = [_num(x) for x in il.split()], [_bits(x) for x in ml.split()]
-                if not _close(ia, ma, 3e-4 * max([abs(y) for y in ma] + [0.0]) + 1e-30):
+                if not _close(ia, ma, 5e-4 * max([abs(y) for y in ma] + [0.0]) + 1e-30):
                     return False
             return impl.count("|") == model.count("|")
     except (ValueError, IndexError, OverflowError):
@@ -125,7 +125,7 @@ def main(tier, replay):
         "separable == successive 1-D filters in all 6 axis orders, Gaussian/Metz kernel sums and mean preservation on locally constant data.")
     chk.assumptions += ["32-bit overflow not modelled", "float rounding of the transforms is bounded, not modelled (binary64 model)",
                         "product of DFTs = circular convolution (convolution theorem) is checked by correspondence, not proved",
-                        "Metz kernels: model at binary64, compared within 3e-4 of the kernel peak"]
+                        "Metz kernels: model at binary64, compared within 5e-4 of the kernel peak"]
     if audit:
         vlib.proof_coverage(chk, audit, "cd lean && lake build StirVerif stirdriver && lake env lean ../build/out/Audit_C19.lean")
     return chk.finish()
